@@ -69,7 +69,7 @@ Template(txt, first) ==
        IF c = "." THEN "." \o Template(rest, FALSE)
        ELSE (IF first THEN "" ELSE " ") \o Stars(IF DigitVal(c) = 0 THEN 10 ELSE DigitVal(c)) \o Template(rest, FALSE)
 
-HasPoeticSpelling(v) == (v.c = "fin" /\ v.n >= 0) \/ (v.c \in {"big", "tiny"} /\ v.s > 0)                    \* finite and not negative (also not -0)
+HasPoeticSpelling(v) == (v.c = "fin" /\ v.n >= 0) \/ (v.c \in {"big", "tiny", "dec"} /\ v.s > 0)                    \* finite and not negative (also not -0)
 HasLineBreak(s) == \E i \in 1..Len(s) : CharAt(s, i) = "\n"
 
 (* a report of the boring-assignment pass *)
